@@ -579,6 +579,49 @@ def _close(a, b, rtol=1e-9, atol=1e-9):
     return ok, f"max abs diff {float(d.max()) if d.numel() else 0.0:.3e}"
 
 
+def _numeric_one(d, mean, K, m_flat, n, t, inter, batch, gen, report):
+    import torch
+    import warnings
+    N = n * t
+    # mean / variance
+    report("mean", *_close(d.mean, mean, 0, 0))
+    var_ref = torch.diagonal(K, dim1=-1, dim2=-2)
+    var_ref = var_ref.reshape(*batch, n, t) if inter else var_ref.reshape(*batch, t, n).transpose(-1, -2)
+    report("variance", *_close(d.variance, var_ref))
+    # log_prob, also with extra sample dimensions
+    for sshape in ((), (3,)):
+        v = torch.rand(*sshape, *batch, n, t, generator=gen, dtype=torch.float64) * 4 - 2
+        ref = _logpdf(_flatten(v, inter), m_flat, K)
+        with warnings.catch_warnings():
+            warnings.simplefilter("ignore")
+            got = d.log_prob(v)
+        report("log_prob", *_close(got, ref, 1e-9, 1e-9))
+    # rsample with base samples: the sampling map is affine with Gram matrix K
+    E = torch.eye(N, dtype=torch.float64).reshape(N, *([1] * len(batch)), n, t).expand(N, *batch, n, t).contiguous()
+    with warnings.catch_warnings():
+        warnings.simplefilter("ignore")
+        s0 = d.rsample(base_samples=torch.zeros(*batch, n, t, dtype=torch.float64))
+        S = d.rsample(base_samples=E)
+    report("rsample-zero-base", *_close(s0, mean, 1e-12, 1e-12))
+    ok_shape = tuple(S.shape) == (N, *batch, n, t)
+    if not ok_shape:
+        report("rsample-base", False, f"shape {tuple(S.shape)}")
+    else:
+        A = (_flatten(S, inter) - m_flat).movedim(0, -1)     # (..., N, N): column k = image of e_k
+        report("rsample-base", *_close(A @ A.transpose(-1, -2), K, 1e-9, 1e-9))
+    bs = d.get_base_samples(torch.Size([2]))
+    report("get_base_samples-shape", tuple(bs.shape) == (2, *batch, n, t), f"shape {tuple(bs.shape)}")
+    # to_data_independent_dist
+    jit = 1e-3
+    with warnings.catch_warnings():
+        warnings.simplefilter("ignore")
+        di = d.to_data_independent_dist(jitter_val=jit)
+    pos = torch.tensor([[i * t + a if inter else a * n + i for a in range(t)] for i in range(n)])
+    ref = K[..., pos.unsqueeze(-1), pos.unsqueeze(-2)] + jit * torch.eye(t, dtype=torch.float64)
+    report("to_data_independent_dist-mean", *_close(di.mean, mean, 0, 0))
+    report("to_data_independent_dist-cov", *_close(di.covariance_matrix, ref, 1e-12, 1e-12))
+
+
 def run_numeric(ctx):
     import torch
     import warnings
@@ -607,43 +650,12 @@ def run_numeric(ctx):
             ctx.count("numeric_checks")
             if not ok:
                 ctx.fail(f"numeric:{what}:{lay}", f"{desc}: {what} differs from the dense joint ({info})", dict(rp, what=what))
-        # mean / variance
-        report("mean", *_close(d.mean, mean, 0, 0))
-        var_ref = torch.diagonal(K, dim1=-1, dim2=-2)
-        var_ref = var_ref.reshape(*batch, n, t) if inter else var_ref.reshape(*batch, t, n).transpose(-1, -2)
-        report("variance", *_close(d.variance, var_ref))
-        # log_prob, also with extra sample dimensions
-        for sshape in ((), (3,)):
-            v = torch.rand(*sshape, *batch, n, t, generator=gen, dtype=torch.float64) * 4 - 2
-            ref = _logpdf(_flatten(v, inter), m_flat, K)
-            with warnings.catch_warnings():
-                warnings.simplefilter("ignore")
-                got = d.log_prob(v)
-            report("log_prob", *_close(got, ref, 1e-9, 1e-9))
-        # rsample with base samples: the sampling map is affine with Gram matrix K
-        E = torch.eye(N, dtype=torch.float64).reshape(N, *([1] * len(batch)), n, t).expand(N, *batch, n, t).contiguous()
-        with warnings.catch_warnings():
-            warnings.simplefilter("ignore")
-            s0 = d.rsample(base_samples=torch.zeros(*batch, n, t, dtype=torch.float64))
-            S = d.rsample(base_samples=E)
-        report("rsample-zero-base", *_close(s0, mean, 1e-12, 1e-12))
-        ok_shape = tuple(S.shape) == (N, *batch, n, t)
-        if not ok_shape:
-            report("rsample-base", False, f"shape {tuple(S.shape)}")
-        else:
-            A = (_flatten(S, inter) - m_flat).movedim(0, -1)     # (..., N, N): column k = image of e_k
-            report("rsample-base", *_close(A @ A.transpose(-1, -2), K, 1e-9, 1e-9))
-        bs = d.get_base_samples(torch.Size([2]))
-        report("get_base_samples-shape", tuple(bs.shape) == (2, *batch, n, t), f"shape {tuple(bs.shape)}")
-        # to_data_independent_dist
-        jit = 1e-3
-        with warnings.catch_warnings():
-            warnings.simplefilter("ignore")
-            di = d.to_data_independent_dist(jitter_val=jit)
-        pos = torch.tensor([[i * t + a if inter else a * n + i for a in range(t)] for i in range(n)])
-        ref = K[..., pos.unsqueeze(-1), pos.unsqueeze(-2)] + jit * torch.eye(t, dtype=torch.float64)
-        report("to_data_independent_dist-mean", *_close(di.mean, mean, 0, 0))
-        report("to_data_independent_dist-cov", *_close(di.covariance_matrix, ref, 1e-12, 1e-12))
+        try:
+            _numeric_one(d, mean, K, m_flat, n, t, inter, batch, gen, report)
+        except Exception as e:   # the implementation raised on a valid call: a failure of that site, not of the harness
+            import traceback
+            site = [f.name for f in traceback.extract_tb(e.__traceback__) if "multitask_multivariate_normal" in f.filename]
+            report((site[-1] if site else "call") + "-raises", False, f"{type(e).__name__}: {str(e)[:150]}")
     # rsample without base samples: moments of the joint (statistical, 6-sigma bounds; deterministic per seed)
     for (n, t), inter in (((3, 2), True), ((3, 2), False), ((2, 3), False), ((2, 3), True)):
         N = n * t
@@ -680,6 +692,12 @@ def run_constructors(ctx, gen):
     from gpytorch.distributions import MultitaskMultivariateNormal, MultivariateNormal
 
     def joint_check(what, res, means, covs, desc, rp):
+        try:
+            joint_check_(what, res, means, covs, desc, rp)
+        except Exception as e:
+            ctx.fail(f"numeric:{what}:raises", f"{desc}: {type(e).__name__}: {str(e)[:150]}", rp)
+
+    def joint_check_(what, res, means, covs, desc, rp):
         """means: (..., t, n) per-task means, covs (..., t, n, n): expected joint = independent tasks."""
         t, n = means.shape[-2], means.shape[-1]
         exp_mean = means.transpose(-1, -2)
@@ -736,16 +754,24 @@ def run_constructors(ctx, gen):
             mvns = [MultivariateNormal(mm, to_linear_operator(kk)) for mm, kk in zip(ms, Ks)]
             desc = f"from_independent_mvns n={n} t={t} batch_shape={list(bshape)}"
             rp = {"ctor": "from_independent_mvns", "n": n, "t": t, "bshape": list(bshape)}
-            res = MultitaskMultivariateNormal.from_independent_mvns(mvns)
+            try:
+                res = MultitaskMultivariateNormal.from_independent_mvns(mvns)
+            except Exception as e:
+                ctx.fail("numeric:from_independent_mvns:raises", f"{desc}: {type(e).__name__}: {e}", rp)
+                continue
             joint_check("from_independent_mvns", res, torch.stack(ms, -2), torch.stack(Ks, -3), desc, rp)
             observed["fromIndependentMvns"] = (type(res.lazy_covariance_matrix).__name__, res._interleaved)
         # from_repeated_mvn
         for bshape in ((), (2,)):
             K = _rand_cov(gen, bshape, n)
             m = torch.rand(*bshape, n, generator=gen, dtype=torch.float64)
-            res = MultitaskMultivariateNormal.from_repeated_mvn(MultivariateNormal(m, to_linear_operator(K)), num_tasks=t)
             desc = f"from_repeated_mvn n={n} t={t} batch_shape={list(bshape)}"
             rp = {"ctor": "from_repeated_mvn", "n": n, "t": t, "bshape": list(bshape)}
+            try:
+                res = MultitaskMultivariateNormal.from_repeated_mvn(MultivariateNormal(m, to_linear_operator(K)), num_tasks=t)
+            except Exception as e:
+                ctx.fail("numeric:from_repeated_mvn:raises", f"{desc}: {type(e).__name__}: {e}", rp)
+                continue
             joint_check("from_repeated_mvn", res, m.unsqueeze(-2).expand(*bshape, t, n), K.unsqueeze(-3).expand(*bshape, t, n, n),
                         desc, rp)
             observed["fromRepeatedMvn"] = (type(res.lazy_covariance_matrix).__name__, res._interleaved)
@@ -764,10 +790,17 @@ def run_data_independent_tags(ctx, want_driver=True):
                 for batch in ((), (2,)):
                     W = Tagged(n, t, inter, batch)
                     lay = "interleaved" if inter else "noninterleaved"
-                    with warnings.catch_warnings():
-                        warnings.simplefilter("ignore")
-                        di = W.d.to_data_independent_dist(jitter_val=0.0)
                     ctx.case(f"data-independent tags n={n} t={t} {lay} batch={list(batch)}")
+                    try:
+                        with warnings.catch_warnings():
+                            warnings.simplefilter("ignore")
+                            di = W.d.to_data_independent_dist(jitter_val=0.0)
+                            di.covariance_matrix
+                    except Exception as e:
+                        ctx.fail(f"data_independent:{lay}", f"n={n} t={t} {lay} batch={list(batch)}: to_data_independent_dist "
+                                 f"raises {type(e).__name__}: {str(e)[:120]}",
+                                 {"n": n, "t": t, "inter": inter, "batch": list(batch), "what": "data_independent"})
+                        continue
                     g = W.mean.round().long()              # (..., n, t) tags
                     b, p = g // W.N, g % W.N
                     E = W.covB[b.unsqueeze(-1), p.unsqueeze(-1), p.unsqueeze(-2)]
@@ -834,8 +867,17 @@ def run_views(ctx, want_driver=True):
                     desc = f"views n={n} t={t} {lay} batch={list(batch)}"
                     ctx.case(desc)
 
-                    def bad(what, info):
+                    def bad(what, info, lay=lay, desc=desc, rp=rp):
                         ctx.fail(f"view:{what}:{lay}", f"{desc}: {info}", dict(rp, site=what))
+                    try:
+                        d.loc, d.mean, d.variance
+                        with warnings.catch_warnings():
+                            warnings.simplefilter("ignore")
+                            d.rsample(base_samples=torch.zeros(*batch, n, t, dtype=torch.float64))
+                            d.log_prob(v)
+                    except Exception as e:
+                        bad("raises", f"{type(e).__name__}: {str(e)[:150]}")
+                        continue
                     # constructor: loc[flat(i,a)] = mean[i,a]
                     loc = d.loc
                     if not bool((loc[..., pos] == v).all()):
